@@ -799,6 +799,16 @@ Burst(a, e) ==
   ELSE Viol(a, IF a.cfg.cancelable THEN "C03" ELSE "C01", "backlog-not-delivered-by-flush",
             [finished |-> e.finished, delivered_when_flush_returned |-> e.by_flush, after_two_more |-> e.later, other_thread |-> e.cross])
 
+\* overload on the built-in capacities (C09): thousands of traces started and finished on one thread with no cycle in
+\* between - the queue full, thousands of signals parked - every call still returns; after the queue has drained a new
+\* trace, with a child submitted by the thread that was overloaded, is delivered completely
+BurstR(a, e) ==
+  LET a1 == IF ~e.returned THEN Viol(a, "C09", "tracing-calls-blocked-while-the-queue-was-full", [roots |-> e.roots]) ELSE a IN
+  IF e.returned /\ (e.late_delivered # e.late_expected \/ ~e.calls_after_ok)
+  THEN Viol(a1, "C09", "trace-started-after-the-drain-not-delivered-completely",
+            [expected |-> e.late_expected, delivered |-> e.late_delivered, calls_returned |-> e.calls_after_ok])
+  ELSE a1
+
 \* at quiescence (no call in progress, two full cycles since the last one): the collector keeps an
 \* entry only for sampled roots that are still open, and no receiver of an exited thread (C08)
 Stats(a, e) ==
@@ -911,6 +921,7 @@ AbsStep(a, e) ==
     [] e.ev = "idle"      -> Idle(a, e)
     [] e.ev = "ids"       -> Ids(a, e)
     [] e.ev = "burst"     -> Burst(a, e)
+    [] e.ev = "burstr"    -> BurstR(a, e)
     [] e.ev = "dup"       -> Dup(a, e)
     [] e.ev = "withline"  -> WithLine(a, e)
     [] OTHER              -> a
